@@ -77,6 +77,25 @@ DoUpdate(rs, c, v, p) ==
          THEN ResR(TRUE, Cardinality(hit), after, img) ELSE Res(FALSE, 0, rs)
 DoDelete(rs, p) == LET hit == {r \in rs : Matches(r, p)} IN ResR(TRUE, Cardinality(hit), rs \ hit, hit)
 
+(* ---------- INSERT ... ON CONFLICT (one row) ---------- *)
+\* the existing rows the new row collides with: on the primary key, on UNIQUE(a) (NULLs never collide)
+ClashId(rs, r) == {x \in rs : x[1] = r[1]}
+ClashA(rs, r) == {x \in rs : r[2] # N /\ x[2] = r[2]}
+\* ON CONFLICT DO NOTHING (no target): a row that collides with an existing row on any key is skipped; otherwise it is
+\* an ordinary INSERT. (A colliding row that ALSO breaks NOT NULL / CHECK is left out of the model: SQL dialects
+\* disagree on whether it is skipped or refused, and C09 only says the result must satisfy the constraints.)
+UpsertNothingDefined(rs, r) == RowOk(r) \/ (ClashId(rs, r) \cup ClashA(rs, r) = {})
+DoUpsertNothing(rs, r) == IF ClashId(rs, r) \cup ClashA(rs, r) # {} THEN Res(TRUE, 0, rs) ELSE DoInsert(rs, <<r>>)
+\* ON CONFLICT (tgt) DO UPDATE SET c = v: if an existing row collides on the TARGET key, that row gets c = v (and the
+\* statement succeeds iff the table then satisfies every constraint); otherwise it is an ordinary INSERT, which a
+\* collision on the other key refuses
+DoUpsertUpdate(rs, r, tgt, c, v) ==
+    LET hit == IF tgt = "id" THEN ClashId(rs, r) ELSE ClashA(rs, r)
+        img == {SetCol(x, c, v) : x \in hit}
+        after == (rs \ hit) \cup img
+    IN IF hit = {} THEN DoInsert(rs, <<r>>)
+       ELSE IF Cardinality(after) = Cardinality(rs) /\ TableOk(after) THEN ResR(TRUE, 1, after, img) ELSE Res(FALSE, 0, rs)
+
 InsRows == {Row(i, a, b) : i \in Ids, a \in AVals, b \in BVals}
 \* second rows of two-row inserts: a small set that produces every failure kind in second position
 SecondRows == {Row(i, a, b) : i \in {1, 3}, a \in {N, 1}, b \in {0, 5}} \cup {Row(2, 2, N)}
@@ -89,6 +108,7 @@ Touched(op) == CASE op.k = "insert" -> {op.rows[j][1] : j \in 1..Len(op.rows)}
                  [] op.k = "update" -> {r[1] : r \in {r2 \in rows : Matches(r2, op.p)}} \cup (IF op.c = "id" THEN {op.v} ELSE {})
                  [] op.k = "delete" -> {r[1] : r \in {r2 \in rows : Matches(r2, op.p)}}
                  [] op.k = "truncate" -> {r[1] : r \in rows}
+                 [] op.k = "upsert" -> {op.row[1]} \cup {x[1] : x \in ClashId(rows, op.row) \cup ClashA(rows, op.row)}
                  [] OTHER -> {}
 Step(op, res) == /\ nops' = nops + 1
                  /\ (op.k # "setconfig" => UNCHANGED conf)
@@ -107,6 +127,10 @@ Update  == \E p \in Preds, c \in {"a", "b"} : \E v \in (IF c = "a" THEN AVals EL
 UpdateId == \E i \in Ids, j \in Ids : Stmt([k |-> "update", c |-> "id", v |-> j, p |-> [k |-> "eq", c |-> "id", v |-> i]],
                                            DoUpdate(rows, "id", j, [k |-> "eq", c |-> "id", v |-> i]))
 Delete  == \E p \in Preds : Stmt([k |-> "delete", p |-> p], DoDelete(rows, p))
+UpsertNothing(RowSet) == \E r \in RowSet : UpsertNothingDefined(rows, r) /\
+                             Stmt([k |-> "upsert", row |-> r, act |-> "nothing", tgt |-> "-", c |-> "-", v |-> 0], DoUpsertNothing(rows, r))
+UpsertUpdate(RowSet, Sets) == \E r \in RowSet, tgt \in {"id", "a"}, cv \in Sets : RowOk(r) /\
+                             Stmt([k |-> "upsert", row |-> r, act |-> "update", tgt |-> tgt, c |-> cv[1], v |-> cv[2]], DoUpsertUpdate(rows, r, tgt, cv[1], cv[2]))
 Truncate == txn = <<>> /\ Stmt([k |-> "truncate"], Res(TRUE, Cardinality(rows), {}))
 
 \* stuttering steps on the logical state (C04, C42)
